@@ -278,3 +278,10 @@ def replay(ctx, data):
             ctx.violation("replayed sequence still disagrees", data)
     else:
         run(ctx)
+
+
+MANIFEST = dict(
+    technique='Lean 4: decide over wrapper tables regenerated from the C/Fortran glue sources, registry and settings-store theorems; op-sequence correspondence through the three bindings',
+    text='Theorems (Properties/C13.lean, C13Store.lean): all 73 C wrappers and 68 Fortran glue functions regenerated from the current source have the documented forwarding shape (method, argument order, bool conversion, result-code translation, invalid-instance result, 1-based shifts, padding, heading-row subtraction); bind(C) names/arity of the .F90 module match; padfstring contract; ids strictly increasing and never reused for every history; dead/negative/unissued ids change nothing; double destroy; per-instance isolation; set/get store laws and defaults. Tie: translator re-run every check + random (quick) and exhaustive length<=4 (thorough) call sequences through C API, C++ object and F functions vs pmodel api; cell-by-cell accessor agreement after a real run.',
+    note='Trusted: gen_api.py regex extraction (fails closed on unrecognised functions; callback setters are outside the table), harness/ph_api.cpp. No Fortran compiler: the .F90 module is checked textually; the F functions are called from C++.',
+)
